@@ -54,6 +54,10 @@ func vnRenderJS(out []byte, list []vnS, names []byte) []byte {
 			out = append(append(append(out, "(class "...), id(s.site)...), "{m(){"...)
 			out = vnRenderJS(out, s.body, names)
 			out = append(out, "}});"...)
+		case "switch": // switch(U){case 0: body}: the discriminant is outside the case block's scope
+			out = append(append(append(out, "switch("...), id(s.site)...), "){case 0:"...)
+			out = vnRenderJS(out, s.body, names)
+			out = append(out, '}')
 		case "pmeth": // an object literal with a method inside parentheses (a possible arrow head): z=({m(){body}});
 			out = append(out, "z=({m(){"...)
 			out = vnRenderJS(out, s.body, names)
@@ -254,7 +258,7 @@ func (r *vnResolver) scope(sc *vnScope, list []vnS) {
 	inner := make([]*vnScope, len(list))
 	for i, s := range list {
 		switch s.k {
-		case "block":
+		case "block", "switch":
 			inner[i] = &vnScope{parent: sc}
 			r.hoistVars(inner[i], s.body)
 		case "catch":
@@ -280,11 +284,14 @@ func (r *vnResolver) scope(sc *vnScope, list []vnS) {
 			r.function(ns, vnS{k: "func", site: -1, body: s.body})
 		case "sblock": // a static block is its own var scope (like a function body)
 			r.function(sc, vnS{k: "func", site: -1, body: s.body})
-		case "block", "catch", "forlet":
+		case "block", "catch", "forlet", "switch":
 			if s.k == "forlet" {
 				for _, d := range s.defs {
 					r.use(inner[i].parent, d) // condition / update live in the loop-head scope
 				}
+			}
+			if s.k == "switch" {
+				r.use(sc, s.site) // the discriminant is evaluated in the enclosing scope
 			}
 			r.scopeBody(inner[i], s.body)
 		case "func":
@@ -310,7 +317,7 @@ func (r *vnResolver) scopeBody(sc *vnScope, list []vnS) {
 	inner := make([]*vnScope, len(list))
 	for i, s := range list {
 		switch s.k {
-		case "block":
+		case "block", "switch":
 			inner[i] = &vnScope{parent: sc}
 			r.hoistVars(inner[i], s.body)
 		case "catch":
@@ -336,11 +343,14 @@ func (r *vnResolver) scopeBody(sc *vnScope, list []vnS) {
 			r.function(ns, vnS{k: "func", site: -1, body: s.body})
 		case "sblock":
 			r.function(sc, vnS{k: "func", site: -1, body: s.body})
-		case "block", "catch", "forlet":
+		case "block", "catch", "forlet", "switch":
 			if s.k == "forlet" {
 				for _, d := range s.defs {
 					r.use(inner[i].parent, d)
 				}
+			}
+			if s.k == "switch" {
+				r.use(sc, s.site)
 			}
 			r.scopeBody(inner[i], s.body)
 		case "func", "arrow", "arrow1", "arrow0":
@@ -399,6 +409,10 @@ var vnSkeletons = []struct {
 	{5, []vnS{vnD("var", 0), vnBlk(vnU(1)), {k: "arrow1", site: -1, params: []int{2}, body: []vnS{vnU(3)}}, vnU(4)}},              // 31: x => body where x is known from a sibling block
 	{5, []vnS{vnD("var", 0), vnBlk(vnU(1)), {k: "arrow0", site: -1, params: []int{2}, body: []vnS{vnU(3)}}, vnU(4)}},              // 32: z = x => body (not parenthesised), x known before
 	{4, []vnS{vnU(0), {k: "arrow0", site: -1, params: []int{1}, body: []vnS{vnU(2)}}, vnU(3)}},                                     // 33: the same with a name that was only used before
+	{3, []vnS{{k: "fexpr", site: 0, body: []vnS{vnD("let", 1), vnD("let", 2)}}}},                                                 // 34: redeclaration inside a named function expression, also of its own name
+	{5, []vnS{vnD("var", 0), {k: "switch", site: 1, body: []vnS{vnD("let", 2), vnU(3)}}, vnU(4)}},                                // 35: switch discriminant vs a let in a case clause
+	{5, []vnS{vnFn(0, nil, vnBlk(vnFn(1, nil)), vnBlk(vnFn(2, nil)), vnU(3)), vnU(4)}},                                            // 36: function declarations in sibling blocks, used outside the blocks
+	{4, []vnS{vnFn(0, nil, vnD("let", 1), vnD("var", 2)), vnU(3)}},                                                               // 37: let and var of one name inside a function named the same
 }
 
 // VerifScope: all identifier occurrences that denote the same binding share one Var;
